@@ -108,8 +108,15 @@ def evaluate_clusters(plan, ctx):
         if [k for k, _ in got] != arms:
             raise Violation("keys", "keys %r, arms %r" % ([k for k, _ in got], arms))
         if not cell:
-            skipped = True
+            # a k-means cluster without any stored observation (fewer distinct contexts than clusters, or mini-batch
+            # k-means on a small history): the learning policy trained on nothing holds the neutral value
             ev.append("empty_cell")
+            if cfg["lp"][0] in ("EpsilonGreedy", "UCB1") and deterministic:
+                if not all(v == 0 for _, v in got):
+                    raise Violation("empty_cell_value", "query %r falls into cluster %d which holds no stored observation, "
+                                    "but the expectations are %s instead of the neutral 0" % (q, c, ops.short(got)))
+            else:
+                skipped = True
             continue
         # the cluster policy was trained at the last training call with the arms of that time; arms added since
         # are neutral, arms removed since are gone: a fresh bandit with the *current* arms fit on the cell rows
@@ -199,8 +206,8 @@ def tree_plan_st(draw, tier):
         ["TreeBandit", {"tree_parameters": dict(tp)}]
     cfg = {"arms": arms, "lp": lp, "np": npd, "seed": draw(st.integers(0, 2 ** 20)), "n_jobs": 1, "backend": None,
            "arm_kind": kind}
-    h = gen.History(draw, cfg, grid=draw(st.sampled_from(["int", "small"])), d=draw(st.integers(1, 3)), max_rows=10,
-                    exact_only=True)
+    h = gen.History(draw, cfg, grid=draw(st.sampled_from(["int", "small", "int", "f32edge"])), d=draw(st.integers(1, 3)),
+                    max_rows=10, exact_only=True)
     h.fit()
     for _ in range(draw(st.integers(0, 6))):
         # queries in the middle of the history: whatever a prediction leaves behind must not survive a later fit
